@@ -4,9 +4,14 @@
 package c02
 
 import (
+	"bytes"
+	"encoding/json"
 	"fmt"
 	"math/rand"
+	"regexp"
+	"strconv"
 	"strings"
+	"time"
 
 	"verif/core"
 )
@@ -53,19 +58,16 @@ func src(cs *core.ProgCase) string {
 // Judge validates observed cases with TLC and reports violations.
 func Judge(ctx *core.Ctx, cases []*core.ProgCase) {
 	ctx.AddEvals(int64(len(cases)))
-	var ok []*core.ProgCase
-	rejects := 0
+	var ok, rejected []*core.ProgCase
 	for _, cs := range cases {
 		if cs.Obs.CompileErr != "" {
-			rejects++
-			if rejects <= 3 {
-				ctx.ToolError("generated bundle rejected by the compiler (generator or checker problem): %s\n%s", cs.Obs.CompileErr, src(cs))
-			}
+			rejected = append(rejected, cs)
 			continue
 		}
 		ctx.Distinct(src(cs) + fmt.Sprint(cs.Prog.Data))
 		ok = append(ok, cs)
 	}
+	judgeRejected(ctx, rejected)
 	if len(ok) == 0 {
 		return
 	}
@@ -99,5 +101,47 @@ func Classify(cs *core.ProgCase) string {
 		return "missing-error"
 	default:
 		return "wrong-output"
+	}
+}
+
+var reBadV = regexp.MustCompile(`^<<"BAD", (\d+), "(\w+)">>$`)
+
+// judgeRejected: a generated bundle the compiler rejects is a violation if the
+// data-reference rules (SoyCheck.Verdict, evaluated by TLC) say it is valid —
+// e.g. a call through an alias that no longer resolves — and a generator
+// problem (tool error) otherwise.
+func judgeRejected(ctx *core.Ctx, rejected []*core.ProgCase) {
+	if len(rejected) == 0 {
+		return
+	}
+	var buf bytes.Buffer
+	for _, cs := range rejected {
+		b, _ := json.Marshal(map[string]interface{}{"bundle": cs.Prog.Bundle, "accepted": false})
+		buf.Write(b)
+		buf.WriteByte('\n')
+	}
+	cfg := "CONSTANT Dev = {}\nINIT Init7\nNEXT Next7\nINVARIANT Report7\nCHECK_DEADLOCK FALSE\n"
+	res, err := ctx.RunTLC(core.TLCOpts{Module: "C07Trace", Cfg: cfg, Files: map[string][]byte{"c07_trace.ndjson": buf.Bytes()},
+		Workers: 1, Timeout: 5 * time.Minute, Label: "verdict-of-rejected-bundles"})
+	if err != nil {
+		ctx.ToolError("%v", err)
+		return
+	}
+	valid := map[int]bool{}
+	for _, t := range res.Tuples {
+		if m := reBadV.FindStringSubmatch(t); m != nil && m[2] == "valid" {
+			i, _ := strconv.Atoi(m[1])
+			valid[i-1] = true
+		}
+	}
+	nerr := 0
+	for i, cs := range rejected {
+		if valid[i] {
+			ctx.Violation(core.Sig{Family: cs.Family, Feature: "valid-bundle-rejected"},
+				"a bundle that satisfies the rules is rejected: "+cs.Obs.CompileErr+"\n"+src(cs), cs)
+		} else if nerr < 3 {
+			nerr++
+			ctx.ToolError("generated bundle rejected by the compiler and not valid by the rules (generator problem): %s\n%s", cs.Obs.CompileErr, src(cs))
+		}
 	}
 }
